@@ -3647,6 +3647,81 @@ func scanSibDef(c *core.Ctx) []ob {
 				ren[sig.Recv()] = "$r"
 			}
 		}
+		// locals that stand for one call-free expression for their whole life (`sLast := r.SubRings[level]`) are replaced
+		// by it before the comparison: hoisting a sub-expression into a local in one sibling is not a difference
+		nAssign := map[types.Object]int{}
+		localDef := map[types.Object]ast.Expr{}
+		ast.Inspect(d.fd.Body, func(x ast.Node) bool {
+			switch v := x.(type) {
+			case *ast.AssignStmt:
+				for i, l := range v.Lhs {
+					id, ok := l.(*ast.Ident)
+					if !ok {
+						continue
+					}
+					o := info.Defs[id]
+					if o == nil {
+						o = info.Uses[id]
+					}
+					if o == nil {
+						continue
+					}
+					nAssign[o]++
+					if v.Tok == token.DEFINE && len(v.Lhs) == len(v.Rhs) {
+						callFree := true
+						ast.Inspect(v.Rhs[i], func(y ast.Node) bool {
+							switch y.(type) {
+							case *ast.CallExpr, *ast.FuncLit, *ast.CompositeLit:
+								callFree = false
+							}
+							return callFree
+						})
+						if callFree {
+							localDef[o] = v.Rhs[i]
+						}
+					}
+				}
+			case *ast.IncDecStmt:
+				if id, ok := v.X.(*ast.Ident); ok {
+					nAssign[info.Uses[id]] += 10
+				}
+			case *ast.RangeStmt:
+				for _, e := range []ast.Expr{v.Key, v.Value} {
+					if id, ok := e.(*ast.Ident); ok {
+						if o := info.Defs[id]; o != nil {
+							nAssign[o] += 10
+						}
+					}
+				}
+			}
+			return true
+		})
+		var subst func(e ast.Expr, depth int) ast.Expr
+		subst = func(e ast.Expr, depth int) ast.Expr {
+			switch v := e.(type) {
+			case *ast.Ident:
+				if o := info.Uses[v]; o != nil && nAssign[o] == 1 && localDef[o] != nil && depth < 4 {
+					r := subst(localDef[o], depth+1)
+					if _, isBin := unparen(r).(*ast.BinaryExpr); isBin {
+						return &ast.ParenExpr{X: unparen(r)}
+					}
+					return r
+				}
+			case *ast.ParenExpr:
+				return &ast.ParenExpr{X: subst(v.X, depth)}
+			case *ast.BinaryExpr:
+				return &ast.BinaryExpr{X: subst(v.X, depth), Op: v.Op, Y: subst(v.Y, depth)}
+			case *ast.UnaryExpr:
+				return &ast.UnaryExpr{Op: v.Op, X: subst(v.X, depth)}
+			case *ast.SelectorExpr:
+				return &ast.SelectorExpr{X: subst(v.X, depth), Sel: v.Sel}
+			case *ast.IndexExpr:
+				return &ast.IndexExpr{X: subst(v.X, depth), Index: subst(v.Index, depth)}
+			case *ast.StarExpr:
+				return &ast.StarExpr{X: subst(v.X, depth)}
+			}
+			return e
+		}
 		ast.Inspect(d.fd.Body, func(x ast.Node) bool {
 			as, ok := x.(*ast.AssignStmt)
 			if !ok || len(as.Lhs) != len(as.Rhs) {
@@ -3675,8 +3750,9 @@ func scanSibDef(c *core.Ctx) []ob {
 					continue
 				}
 				// textual form with parameters renamed positionally
-				txt := exprString(as.Rhs[i])
-				ast.Inspect(as.Rhs[i], func(y ast.Node) bool {
+				expanded := subst(as.Rhs[i], 0)
+				txt := exprString(expanded)
+				ast.Inspect(expanded, func(y ast.Node) bool {
 					if u, ok := y.(*ast.Ident); ok {
 						if r, ok := ren[info.Uses[u]]; ok {
 							txt = regexpReplaceWord(txt, u.Name, r)
